@@ -135,11 +135,72 @@ def agree(c_res, m, stats):
 # ------------------------------------------------------------------------------------------------
 # the oracle: the property text evaluated from the PUBLIC elemental functions and the composition the real lookups return
 
+_SYMS = None; _AW = None
+def _tables():
+    """element symbols (src/xrayvars.c MendelArray) and atomic weights (data/atomicweight.dat), read independently of the library"""
+    global _SYMS, _AW
+    if _SYMS is None:
+        txt = open(os.path.join(REPO, 'src', 'xrayvars.c')).read()
+        m = re.search(r'MendelArray\s*\[[^\]]*\]\s*=\s*\{(.*?)\};', txt, re.S)
+        _SYMS = {sym: int(z) for z, sym in re.findall(r'\{\s*(\d+)\s*,\s*"(\w+)"\s*\}', m.group(1))} if m else {}
+        _AW = {}
+        for l in open(os.path.join(REPO, 'data', 'atomicweight.dat')):
+            t = l.split()
+            if len(t) == 2:
+                try: _AW[int(t[0])] = float(t[1])
+                except ValueError: pass
+    return _SYMS, _AW
+
+def formula_fractions(text):
+    """mass fractions of a plain chemical formula by the textbook rule (element counts by algebraic expansion of the groups, w = n·A / Σ n·A),
+    ascending Z; None when the text is not a plain well-formed formula of known, weighted elements (then no independent claim is made)"""
+    syms, aw = _tables()
+    pos = 0; n = len(text)
+    def number():
+        nonlocal pos
+        m = re.match(r'\d+(?:\.\d+)?|\.\d+', text[pos:])
+        if not m: return 1.0
+        pos += m.end(); return float(m.group(0))
+    def group(depth):
+        nonlocal pos
+        acc = {}
+        while pos < n:
+            c = text[pos]
+            if c == '(':
+                pos += 1; inner = group(depth + 1)
+                if inner is None or pos >= n or text[pos] != ')': return None
+                pos += 1; k = number()
+                for z, v in inner.items(): acc[z] = acc.get(z, 0.0) + v * k
+            elif c == ')':
+                return acc if depth > 0 else None
+            elif c.isupper():
+                m = re.match(r'[A-Z][a-z]{0,2}', text[pos:])
+                sym = m.group(0)
+                while sym not in syms and len(sym) > 1: sym = sym[:-1]
+                if sym not in syms: return None
+                pos += len(sym); k = number()
+                acc[syms[sym]] = acc.get(syms[sym], 0.0) + k
+            else:
+                return None
+        return acc if depth == 0 else None
+    if not text or not re.fullmatch(r'[A-Za-z0-9().]+', text): return None
+    acc = group(0)
+    if not acc or pos != n or any(v <= 0 for v in acc.values()) or any(z not in aw or aw[z] <= 0 for z in acc): return None
+    tot = sum(v * aw[z] for z, v in acc.items())
+    return [(z, acc[z] * aw[z] / tot) for z in sorted(acc)]
+
 def oracle(line, pc):
     """-> (kind, payload): ('fails', why, [acceptable (code,msg) or None]) | ('value', [floats]) | ('corner', why) """
     inj, fn, mode, comp, args = split_line(line)
     refr = fn in REFR
-    if pc['P'] is not None: els, nist_rho = pc['P'], None          # formula resolution takes precedence
+    if pc['P'] is not None:
+        els, nist_rho = pc['P'], None          # formula resolution takes precedence
+        if not inj:
+            # the mixture rule speaks of the FORMULA's elements and mass fractions: where the text is a plain formula they are recomputed here,
+            # independently of the library's parser (whose own property is C07), and used in the expectation
+            own = formula_fractions(unesc(comp))
+            if own is not None and [z for z, _ in own] == [z for z, _ in els] and all(abs(a - b) <= 1e-9 * max(a, b) for (_, a), (_, b) in zip(own, els)): pass
+            elif own is not None: els = own
     elif pc['N'] is not None: nist_rho, els = pc['N']
     else: return ('fails', 'unknown compound', [(1, esc(UNKNOWN_COMPOUND))])
     V = pc['V']
@@ -330,6 +391,9 @@ class Run:
         for k in range(n):
             f = g.formula(maxdepth=3, maxlen=48)
             out.append(('formula', G.show(f), dict(depth=G.depth(f), items=G.n_items(f))))
+        # formulas in which an element of a bracket group (multiplier != 1) also occurs outside the group or in an earlier group
+        for fml in ('Ca5(PO4)3OH', 'CuSO4(H2O)5', 'Fe4(Fe(CN)6)3', 'C3H4OH(COOH)3', 'CH3(CH2)4CH3', 'Mg3Si4O10(OH)2', 'H2O(H2O)0.5', 'Al2(SO4)3(H2O)18', 'K4Fe(CN)6(H2O)3'):
+            out.append(('formula-repeat', fml, dict(depth=G.depth([]) if False else 1, items=fml.count('(') + 1)))
         # a third of the generated compounds (one per two good ones) carries an element without data, in first / middle / last position
         for k in range((n + 1) // 2):
             f = g.formula(maxdepth=2, maxlen=40)
